@@ -38,7 +38,7 @@ class C04(Prop):
     assumptions = ['levels are read from the parsed helper-attribute records (parse_single); the parse step is covered by C05/C14']
 
     def n(self, tier):
-        return 260 if tier == 'quick' else 4000     # per (trait, kind of item)
+        return 260 if tier == 'quick' else 12000     # per (trait, kind of item)
 
     def cases(self, tier, rng):
         g = BoundGen(rng, self.p_absent)
